@@ -32,6 +32,27 @@ func sentinelFree(c *ICase, sum *Summary) {
 	noPanic(c, sum)
 }
 
+// refOracle: the call trace must be the one the reference semantics computes
+// from the program's structure, and the decode must succeed.
+func refOracle(c *ICase, sum *Summary) {
+	noPanic(c, sum)
+	for i := range c.Expect {
+		o := c.Obs[i]
+		if o.Res != "None" {
+			addFail(sum, "a core-grammar program whose reference run succeeds made Decode return "+o.Res+" "+o.ParseErr, c, "nil", o.Res)
+			continue
+		}
+		if !reflect.DeepEqual(o.Trace, c.Expect[i]) {
+			addFail(sum, "the calls made by the decode differ from what the program means (reference semantics written from the property: Go's loops and comparisons, first matching case, break/continue/lazybreak)", c, c.Expect[i], o.Trace)
+		}
+	}
+}
+
+func refCase(r *prng, o rgenOpts, st map[string]int, tag string) *ICase {
+	j, exp := refJob(r, o, st, 2+r.intn(3), 3)
+	return &ICase{Tag: tag, Jobs: []Job{j}, Expect: [][]string{exp}}
+}
+
 // ------------------------------------------------------------------ C01
 
 func genAssignJob(r *prng, st map[string]int) Job {
@@ -81,6 +102,45 @@ func genAssignJob(r *prng, st map[string]int) Job {
 		}
 	}
 	return Job{Prog: strings.Join(g.lines, "\n") + "\n", doc: d.doc, Statics: g.statics, Fail: -1}
+}
+
+// boundaryGrid: every boundary value, as a JSON number, as a literal and as a
+// JSON string, into every integer / unsigned / bool / string destination
+// (deterministic; part of every run).
+func boundaryGrid() []Job {
+	bounds := []string{"0", "1", "127", "128", "255", "256", "32767", "32768", "65535", "65536", "2147483647", "2147483648",
+		"4294967295", "4294967296", "9223372036854775807", "9223372036854775808", "18446744073709551615", "18446744073709551616",
+		"-1", "-128", "-129", "-32768", "-32769", "-2147483648", "-2147483649", "-9223372036854775808", "-9223372036854775809"}
+	dsts := []string{"ts.I", "ts.I8", "ts.I16", "ts.I32", "ts.I64", "ts.U", "ts.U8", "ts.U16", "ts.U32", "ts.U64", "ts.A", "obj.Status", "obj.Ustate",
+		"obj.Finance.History[1].DateUnix", "ts.S", "ts.B", "obj.Finance.AllowBuy"}
+	doc := &JV{K: "obj"}
+	doc.Keys = append(doc.Keys, "pre")
+	doc.Xs = append(doc.Xs, jObj("x", jNum("1")))
+	for i, b := range bounds {
+		doc.Keys = append(doc.Keys, fmt.Sprintf("n%d", i), fmt.Sprintf("s%d", i))
+		doc.Xs = append(doc.Xs, jNum(b), jStr(b))
+	}
+	var jobs []Job
+	for i, b := range bounds {
+		var lines []string
+		for _, d := range dsts {
+			lines = append(lines, fmt.Sprintf("%s = jso.n%d", d, i))
+		}
+		jobs = append(jobs, Job{Prog: strings.Join(lines, "\n") + "\n", doc: doc, Fail: -1})
+		lines = nil
+		for _, d := range dsts {
+			lines = append(lines, fmt.Sprintf("%s = jso.s%d", d, i))
+		}
+		jobs = append(jobs, Job{Prog: strings.Join(lines, "\n") + "\n", doc: doc, Fail: -1})
+		if !strings.HasPrefix(b, "-") {
+			lines = nil
+			for _, d := range dsts {
+				lines = append(lines, fmt.Sprintf("%s = %s", d, b))
+			}
+			jobs = append(jobs, Job{Prog: strings.Join(lines, "\n") + "\n", doc: doc, Fail: -1})
+		}
+	}
+	return jobs
 }
 
 // ------------------------------------------------------------------ C02
@@ -215,9 +275,15 @@ func freshEqualsReused(c *ICase, sum *Summary) {
 
 func init() {
 	runners["C01"] = func(cfg *runCfg) (*Summary, error) {
-		return runInterp(cfg, "C01", 220, 2500,
+		grid := boundaryGrid()
+		return runInterp(cfg, "C01", 220+len(grid), 2500+len(grid),
 			"programs of 3-9 assignment rules (every source kind: vector node at depth 1-4 by key/index, literal number / fraction / bool / quoted string, struct field, static and context variable, loop variable, getter, coalesce; absent and null sources) x every destination kind (string, []byte, bool, int8..int64, uint8..uint64, float32/64, nested struct fields, slice elements) with boundary values of each width, at top level and inside if / loop bodies; all fields of all objects compared. distinct_nontrivial = distinct programs",
-			func(r *prng, i int, st map[string]int) *ICase { return singleJob("assign", genAssignJob(r, st)) }, nil, noPanic)
+			func(r *prng, i int, st map[string]int) *ICase {
+				if i < len(grid) {
+					return singleJob("boundary grid", grid[i])
+				}
+				return singleJob("assign", genAssignJob(r, st))
+			}, nil, noPanic)
 	}
 	runners["C02"] = func(cfg *runCfg) (*Summary, error) {
 		var pending []*ICase
@@ -265,22 +331,31 @@ func init() {
 		return runInterp(cfg, "C03", 220, 2500,
 			"programs dominated by conditionals: six operators x literal right / left / both dynamic x int, string, bool, float operands from vector nodes, struct fields, static, context and loop variables x with/without else x nesting <= 3, ternaries, condition helpers, cond-OK helpers (plain and negated), preceded by rules that leave foreign values in the scratch cells; branch taken observed through probe calls and assignments",
 			func(r *prng, i int, st map[string]int) *ICase {
+				if i%2 == 1 {
+					return refCase(r, rgenOpts{conds: true, cloops: true}, st, "reference")
+				}
 				o := genOpts{conds: true, userFns: true, ctxvars: true, floats: true, loops: i%3 == 0}
 				return singleJob("cond", genJob(r, o, 4+r.intn(4), 3, st))
-			}, hasTrace, noPanic)
+			}, hasTrace, refOracle)
 	}
 	runners["C04"] = func(cfg *runCfg) (*Summary, error) {
 		return runInterp(cfg, "C04", 220, 2500,
 			"counter loops: five comparison operators x ++/-- x initial values and limits in a small window (literals, JSON numbers, static variables), Go-finite headers only, nested in counter and range loops, same loop executed repeatedly, loop variable probed in every iteration and used as a source",
 			func(r *prng, i int, st map[string]int) *ICase {
+				if i%2 == 1 {
+					return refCase(r, rgenOpts{cloops: true, rloops: true, conds: true}, st, "reference")
+				}
 				o := genOpts{loops: true, conds: i%2 == 0, userFns: true}
 				return singleJob("cloop", genJob(r, o, 3+r.intn(3), 3, st))
-			}, hasTrace, noPanic)
+			}, hasTrace, refOracle)
 	}
 	runners["C05"] = func(cfg *runCfg) (*Summary, error) {
 		return runInterp(cfg, "C05", 220, 2500,
 			"range loops over JSON arrays (ints, strings, objects; length 1-4), absent sources, and struct slices; forms k,v / _,v / k; nested to depth 3 with distinct names; consecutive loops; keys and values probed and used as sources and path roots; two decodes on one context",
 			func(r *prng, i int, st map[string]int) *ICase {
+				if i%2 == 1 {
+					return refCase(r, rgenOpts{rloops: true, cloops: true, conds: true}, st, "reference")
+				}
 				o := genOpts{loops: true, conds: i%2 == 0, userFns: true}
 				j1 := genJob(r, o, 3+r.intn(3), 3, st)
 				if i%4 == 0 {
@@ -288,23 +363,29 @@ func init() {
 					return &ICase{Tag: "rloop x2", Jobs: []Job{j1, j2}}
 				}
 				return singleJob("rloop", j1)
-			}, hasTrace, noPanic)
+			}, hasTrace, refOracle)
 	}
 	runners["C06"] = func(cfg *runCfg) (*Summary, error) {
 		return runInterp(cfg, "C06", 260, 3000,
 			"break / continue / lazybreak (plain and with depth 1..3) guarded by conditions on loop variables that fire at the first, a middle, the last or no iteration, in nests up to depth 3 mixing counter and range loops over vector arrays and struct slices, inside if/switch blocks, followed by further loops and sibling loops inside the enclosing body; every iteration probed",
 			func(r *prng, i int, st map[string]int) *ICase {
+				if i%2 == 1 {
+					return refCase(r, rgenOpts{cloops: true, rloops: true, conds: true, switches: true, signals: true}, st, "reference")
+				}
 				o := genOpts{loops: true, conds: true, switches: i%3 == 0, signals: true, userFns: i%2 == 0}
 				return singleJob("signals", genJob(r, o, 3+r.intn(3), 3, st))
-			}, hasTrace, sentinelFree)
+			}, hasTrace, refOracle)
 	}
 	runners["C07"] = func(cfg *runCfg) (*Summary, error) {
 		return runInterp(cfg, "C07", 220, 2500,
 			"switch statements in both forms: matching case first / middle / last / none / several, int / string (both quote styles) / bool subjects, literal and variable case values, default absent or at any position, six operators and helpers in the condition-less form, nested in loops and conditionals; executed body observed through probes and assignments",
 			func(r *prng, i int, st map[string]int) *ICase {
+				if i%2 == 1 {
+					return refCase(r, rgenOpts{switches: true, conds: true, cloops: true}, st, "reference")
+				}
 				o := genOpts{switches: true, conds: i%2 == 0, loops: i%3 == 0, userFns: true}
 				return singleJob("switch", genJob(r, o, 4+r.intn(3), 3, st))
-			}, hasTrace, noPanic)
+			}, hasTrace, refOracle)
 	}
 	runners["C17"] = func(cfg *runCfg) (*Summary, error) {
 		return runInterp(cfg, "C17", 220, 2500,
